@@ -60,6 +60,7 @@ pub fn encode_ty(reg: &Registry, ty: &Ty, v: &View, o: &EncOpts) -> Item {
         (Ty::Vec(t), View::Seq(xs)) => mark(M_COLL, Item::array(xs.iter().map(|x| encode_ty(reg, t, x, o)).collect())),
         (Ty::Map(k, t), View::Map(xs)) => mark(M_COLL, Item::map(xs.iter().map(|(a, b)| (encode_ty(reg, k, a, o), encode_ty(reg, t, b, o))).collect())),
         (Ty::Named(n), x) => encode_type(reg, &reg[n], x, &EncOpts { omit_top_index: None, force_variant_index: None, ..*o }),
+        (Ty::Tagged(n, t), x) => Item::tag(*n, encode_ty(reg, t, x, o)),
         (Ty::NilU32, View::U(0)) => Item::null(),
         (Ty::NilU32, View::U(n)) => Item::uint(*n),
         (t, x) => panic!("view {:?} does not fit type {:?}", x, t),
@@ -178,6 +179,7 @@ pub fn expected_after_decode(reg: &Registry, ty: &Ty, v: &View) -> View {
         (Ty::Vec(t), View::Seq(xs)) => View::Seq(xs.iter().map(|x| expected_after_decode(reg, t, x)).collect()),
         (Ty::Map(k, t), View::Map(xs)) => View::Map(xs.iter().map(|(a, b)| (expected_after_decode(reg, k, a), expected_after_decode(reg, t, b))).collect()),
         (Ty::Named(n), x) => expected_type(reg, &reg[n], x),
+        (Ty::Tagged(_, t), x) => expected_after_decode(reg, t, x),
         (_, x) => x.clone(),
     }
 }
@@ -196,6 +198,7 @@ pub fn default_view(reg: &Registry, ty: &Ty) -> View {
         Ty::Vec(_) => View::Seq(vec![]),
         Ty::Map(..) => View::Map(vec![]),
         Ty::Named(n) => panic!("no default for named type {} ({:?})", n, reg.get(n).map(|s| s.name)),
+        Ty::Tagged(_, t) => default_view(reg, t),
     }
 }
 
